@@ -604,6 +604,7 @@ TmplParts(parts, env, s, acc) ==
   IF Len(parts) = 0 THEN Ok(VStr(acc), s)
   ELSE LET p == Head(parts) IN
        IF p.k = "lit" THEN TmplParts(Tail(parts), env, s, acc \o p.v)
+       ELSE IF p.e.k = "nilnode" THEN TmplParts(Tail(parts), env, s, acc)      \* the empty interpolation '{}' adds nothing
        ELSE LET r == EvalE(p.e, env, s) IN
             IF r.k # "ok" THEN r
             ELSE IF r.v.t = "error" THEN Unknown(r.s)
